@@ -9,7 +9,7 @@ SRC=${SEEDED_DIR:-/tmp/seeded_out}/$ID/$CH
 WT=/tmp/val_${ID}_$CH
 LOG=/tmp/val_logs/${ID}_$CH.log
 mkdir -p /tmp/val_logs
-export CARGO_NET_OFFLINE=true CARGO_TARGET_DIR=/tmp/val_target
+export CARGO_NET_OFFLINE=true CARGO_TARGET_DIR=${VAL_TARGET:-/tmp/val_target}
 git -C /repo worktree remove --force "$WT" >/dev/null 2>&1; rm -rf "$WT"
 git -C /repo worktree add --detach "$WT" HEAD >/dev/null 2>&1 || { echo "$ID $CH worktree-failed"; exit 3; }
 cd "$WT"
